@@ -113,30 +113,44 @@ var (
 // entirely empty (class 0, nonce 0, storage root 0) has leaf 0 (Starknet OS, get_contract_state_hash);
 // keepEmptySystem=true computes the variant in which such a contract keeps its non-zero leaf
 // (used only to classify a disagreement).
+type hashSet struct {
+	ped, pos crypto.HashFn
+	elems    func(...*felt.Felt) felt.Felt
+}
+
+var (
+	indHS  = hashSet{indPedersen, indPoseidon, indPoseidonElems}
+	junoHS = hashSet{crypto.Pedersen, crypto.Poseidon, crypto.PoseidonElems}
+)
+
 func (a *absState) commitment(version string, keepEmptySystem bool) (root, contractRoot, classRoot felt.Felt) {
+	return a.commitmentWith(indHS, version, keepEmptySystem)
+}
+
+func (a *absState) commitmentWith(hs hashSet, version string, keepEmptySystem bool) (root, contractRoot, classRoot felt.Felt) {
 	leaves := map[string]felt.Felt{}
 	for addr, c := range a.contracts {
-		sr := specRoot(c.storage, 251, crypto.Pedersen)
+		sr := specRoot(c.storage, 251, hs.ped)
 		if c.class.IsZero() && c.nonce.IsZero() && sr.IsZero() && !keepEmptySystem {
 			continue
 		}
-		h1 := crypto.Pedersen(&c.class, &sr)
-		h2 := crypto.Pedersen(&h1, &c.nonce)
-		leaves[addr] = crypto.Pedersen(&h2, &felt.Zero)
+		h1 := hs.ped(&c.class, &sr)
+		h2 := hs.ped(&h1, &c.nonce)
+		leaves[addr] = hs.ped(&h2, &felt.Zero)
 	}
-	contractRoot = specRoot(leaves, 251, crypto.Pedersen)
+	contractRoot = specRoot(leaves, 251, hs.ped)
 	cl := map[string]felt.Felt{}
 	for ch, casm := range a.classes {
-		cl[ch] = crypto.Poseidon(leafVersion0, &casm)
+		cl[ch] = hs.pos(leafVersion0, &casm)
 	}
-	classRoot = specRoot(cl, 251, crypto.Poseidon)
+	classRoot = specRoot(cl, 251, hs.pos)
 	if contractRoot.IsZero() && classRoot.IsZero() {
 		return felt.Zero, contractRoot, classRoot
 	}
 	if classRoot.IsZero() && pre014(version) {
 		return contractRoot, contractRoot, classRoot
 	}
-	return crypto.PoseidonElems(stateVersion0, &contractRoot, &classRoot), contractRoot, classRoot
+	return hs.elems(stateVersion0, &contractRoot, &classRoot), contractRoot, classRoot
 }
 
 // pre014 decides "protocol version < 0.14.0" independently of juno's version code.
@@ -425,6 +439,75 @@ func runOldState(c *StateCase) (tr trace) {
 	return tr
 }
 
+func hasMigration(c *StateCase) bool {
+	for n := range c.Blocks {
+		if len(c.Blocks[n].Migrated) > 0 {
+			return true
+		}
+		for _, d := range c.Blocks[n].Before {
+			if len(d.Diff.Migrated) > 0 {
+				return true
+			}
+		}
+	}
+	return false
+}
+
+// runChain applies the blocks through Blockchain.Finalise (the path that derives the roots signed into
+// the header) under the given WithNewState setting; dropped updates go through Blockchain.Simulate of
+// the same node.
+func runChain(c *StateCase, newState bool) (tr trace) {
+	err, panicked, _ := lib.Try(func() error {
+		disk := memory.New()
+		bc := blockchain.New(disk, &networks.Mainnet, blockchain.WithNewState(newState))
+		prevRoot := felt.Zero
+		parent := felt.Zero
+		for n := range c.Blocks {
+			b := &c.Blocks[n]
+			for di := range b.Before {
+				d := &b.Before[di]
+				before := dumpDB(disk)
+				su, classes := toUpdate(&d.Diff, &prevRoot)
+				blk := simBlock(uint64(n), d.Diff.Version)
+				blk.ParentHash = &parent
+				_, derr := bc.Simulate(blk, su, classes, nil)
+				if tr.Leak == "" {
+					if diff := diffDump(before, dumpDB(disk)); diff != "" {
+						tr.Leak = fmt.Sprintf("block %d, Simulate %d: %s", n, di, diff)
+					} else if derr != nil {
+						tr.Leak = fmt.Sprintf("block %d, Simulate %d failed: %v", n, di, derr)
+					}
+				}
+			}
+			su, classes := toUpdate(b, &prevRoot)
+			blk := simBlock(uint64(n), b.Version)
+			p := parent
+			blk.ParentHash = &p
+			if err := bc.Finalise(blk, su, classes, nil); err != nil {
+				return fmt.Errorf("block %d: Finalise: %w", n, err)
+			}
+			head, err := bc.HeadsHeader()
+			if err != nil {
+				return fmt.Errorf("block %d: head: %w", n, err)
+			}
+			if !head.GlobalStateRoot.Equal(blk.GlobalStateRoot) || head.Number != uint64(n) {
+				return fmt.Errorf("block %d: stored header root %s differs from the root Finalise computed %s", n, head.GlobalStateRoot.String(), blk.GlobalStateRoot.String())
+			}
+			tr.Roots = append(tr.Roots, feltHex(blk.GlobalStateRoot))
+			prevRoot = *blk.GlobalStateRoot
+			parent = *blk.Hash
+		}
+		return nil
+	})
+	if err != nil {
+		tr.Err = err.Error()
+		if panicked {
+			tr.Err = "panic: " + tr.Err
+		}
+	}
+	return tr
+}
+
 // ---- discarded updates -----------------------------------------------------------------------------
 
 func dumpDB(disk *memory.Database) map[string]string {
@@ -580,16 +663,33 @@ func discardOld(disk *memory.Database, prev *felt.Felt, num uint64, d *Discarded
 }
 
 // expected roots after every block; alt = variant where an emptied contract keeps its leaf
-func specStateTrace(c *StateCase) (want, alt []string) {
+func specStateTrace(c *StateCase) (want, alt []string) { return specStateTraceWith(c, indHS) }
+
+func specStateTraceWith(c *StateCase, hs hashSet) (want, alt []string) {
 	a := newAbs()
 	for n := range c.Blocks {
 		a.apply(&c.Blocks[n])
-		r, _, _ := a.commitment(c.Blocks[n].Version, false)
+		r, _, _ := a.commitmentWith(hs, c.Blocks[n].Version, false)
 		want = append(want, feltHex(&r))
-		r2, _, _ := a.commitment(c.Blocks[n].Version, true)
+		r2, _, _ := a.commitmentWith(hs, c.Blocks[n].Version, true)
 		alt = append(alt, feltHex(&r2))
 	}
 	return want, alt
+}
+
+// the real roots are right under juno's own hash functions, wrong under the reference ones
+func primitiveIsCauseState(c *StateCase, real []string) bool {
+	w, a := specStateTraceWith(c, junoHS)
+	return firstDiff(real, w) < 0 || firstDiff(real, a) < 0
+}
+
+// which primitive: roots right with juno's Pedersen and the reference Poseidon -> Pedersen, else Poseidon
+func brokenPrimitiveState(c *StateCase, real []string) string {
+	w, a := specStateTraceWith(c, hashSet{crypto.Pedersen, indPoseidon, indPoseidonElems})
+	if firstDiff(real, w) < 0 || firstDiff(real, a) < 0 {
+		return "ped"
+	}
+	return "pos"
 }
 
 // ---- generator ------------------------------------------------------------------------------------
@@ -598,7 +698,11 @@ var versions = []string{"0.13.1", "0.13.2", "0.13.6", "0.14.0", "0.14.1"}
 
 type statePools struct {
 	addrs, keys, classes []string
+	deployClasses        []string // class hashes of deployed contracts: any felt, also >= 2^251
 }
+
+const feltPm1 = "800000000000011000000000000000000000000000000000000000000000000" // P-1
+const felt2p251 = "800000000000000000000000000000000000000000000000000000000000000"
 
 func genPools(r *lib.RNG) *statePools {
 	p := &statePools{addrs: []string{"1", "2"}}
@@ -611,6 +715,7 @@ func genPools(r *lib.RNG) *statePools {
 		p.keys = append(p.keys, k.Text(16))
 	}
 	p.classes = []string{"c1a55", "c1a56", randBits(r, 250).Text(16)}
+	p.deployClasses = append([]string{feltPm1, felt2p251}, p.classes...)
 	return p
 }
 
@@ -622,7 +727,7 @@ func genBlock(r *lib.RNG, a *absState, p *statePools, ver string) SBlock {
 			if b.Deployed == nil {
 				b.Deployed = map[string]string{}
 			}
-			b.Deployed[addr] = lib.Pick(r, p.classes)
+			b.Deployed[addr] = lib.Pick(r, p.deployClasses)
 		}
 	}
 	deployedNow := func(addr string) bool {
@@ -641,13 +746,13 @@ func genBlock(r *lib.RNG, a *absState, p *statePools, ver string) SBlock {
 				if b.Replaced == nil {
 					b.Replaced = map[string]string{}
 				}
-				b.Replaced[addr] = lib.Pick(r, p.classes)
+				b.Replaced[addr] = lib.Pick(r, p.deployClasses)
 			}
 			if r.Chance(1, 3) {
 				if b.Nonces == nil {
 					b.Nonces = map[string]string{}
 				}
-				b.Nonces[addr] = lib.Pick(r, []string{"0", "1", "2", "ff"})
+				b.Nonces[addr] = lib.Pick(r, []string{"0", "1", "2", "ff", feltPm1, felt2p251})
 			}
 		}
 		if r.Chance(2, 3) {
@@ -672,7 +777,7 @@ func genBlock(r *lib.RNG, a *absState, p *statePools, ver string) SBlock {
 	if r.Chance(1, 3) {
 		ch := lib.Pick(r, p.classes)
 		if _, ok := a.classes[ch]; !ok {
-			b.Declared = map[string]string{ch: lib.Pick(r, []string{"ca5a1", "ca5a2"})}
+			b.Declared = map[string]string{ch: lib.Pick(r, []string{"ca5a1", "ca5a2", feltPm1})}
 		} else if r.Chance(1, 2) {
 			b.Migrated = map[string]string{ch: lib.Pick(r, []string{"ca5b1", "ca5b2"})}
 		}
@@ -846,6 +951,7 @@ func checkStateCases(f lib.Flags, res *lib.Result, drv *lib.Driver, cases []*Sta
 	}()
 	type outcome struct {
 		nw, old   trace
+		chN, chO  *trace // through Blockchain.Finalise / Simulate (every 3rd case and all directed ones)
 		want, alt []string
 	}
 	outs := make([]outcome, len(cases))
@@ -854,6 +960,12 @@ func checkStateCases(f lib.Flags, res *lib.Result, drv *lib.Driver, cases []*Sta
 		if !lib.WithDeadline(deadline(), func() {
 			o.nw = runNewState(c)
 			o.old = runOldState(c)
+			// (casm-hash migrations have chain-level validity rules of their own — which class was declared
+			// under which hash version — that the diff generator does not track: state level only)
+			if (i%3 == 0 || family == "state-directed" || family == "replay") && !hasMigration(c) {
+				a, b := runChain(c, true), runChain(c, false)
+				o.chN, o.chO = &a, &b
+			}
 		}) {
 			o.nw.Err = "hang"
 		}
@@ -930,6 +1042,52 @@ func checkStateCases(f lib.Flags, res *lib.Result, drv *lib.Driver, cases []*Sta
 			b, _ := json.Marshal(shrinkState(c, fails))
 			return replayBody{Kind: "state", State: b}
 		}
+		// the same history through Blockchain.Finalise / Simulate, both WithNewState settings
+		for _, ch := range []struct {
+			t    *trace
+			name string
+			nw   bool
+		}{{o.chN, "new", true}, {o.chO, "legacy", false}} {
+			if ch.t == nil {
+				continue
+			}
+			res.Hit("state:via-Blockchain.Finalise")
+			t, name, nw := ch.t, ch.name, ch.nw
+			ref := o.nw
+			if !nw {
+				ref = o.old
+			}
+			switch {
+			case t.Leak != "":
+				sig := "blockchain-simulate-leaves-trace-in-database-" + name + "-state"
+				violateOnce(res, sig, func() lib.Violation {
+					return lib.Violation{Sig: sig, What: "Blockchain.Simulate changed the database: " + t.Leak,
+						Replay: rep(func(c *StateCase) bool { return runChain(c, nw).Leak != "" })}
+				})
+			case t.Err != "" && ref.Err == "":
+				sig := "blockchain-finalise-fails-on-valid-history-" + name + "-state"
+				violateOnce(res, sig, func() lib.Violation {
+					return lib.Violation{Sig: sig, What: t.Err,
+						Replay: rep(func(c *StateCase) bool { return runChain(c, nw).Err != "" })}
+				})
+			case t.Err == "" && ref.Err == "" && firstDiff(t.Roots, ref.Roots) >= 0:
+				// the state layer itself is judged below; here only: Finalise signs the root the state computes
+				d := firstDiff(t.Roots, ref.Roots)
+				sig := "finalise-root-differs-from-state-root-" + name + "-state"
+				violateOnce(res, sig, func() lib.Violation {
+					return lib.Violation{Sig: sig,
+						What: fmt.Sprintf("block %d: Header.GlobalStateRoot produced by Blockchain.Finalise is %s, the state's own Update/Commitment gives %s", d, at(t.Roots, d), at(ref.Roots, d)),
+						Replay: rep(func(c *StateCase) bool {
+							a := runChain(c, nw)
+							b := runNewState(c)
+							if !nw {
+								b = runOldState(c)
+							}
+							return a.Err == "" && b.Err == "" && firstDiff(a.Roots, b.Roots) >= 0
+						})}
+				})
+			}
+		}
 		// dropped updates must leave no trace
 		if o.nw.Leak != "" {
 			violateOnce(res, "state-dropped-update-leaves-trace-in-database", func() lib.Violation {
@@ -949,7 +1107,10 @@ func checkStateCases(f lib.Flags, res *lib.Result, drv *lib.Driver, cases []*Sta
 		if o.nw.Err != "" {
 			violateOnce(res, "state-update-fails-on-valid-history", func() lib.Violation { return lib.Violation{Sig: "state-update-fails-on-valid-history", What: "core/state: " + o.nw.Err,
 				Replay: rep(func(c *StateCase) bool { return runNewState(c).Err != "" })} })
-		} else if d := firstDiff(o.nw.Roots, o.want); d >= 0 {
+		} else if d := firstDiff(o.nw.Roots, o.want); d >= 0 && primitiveIsCauseState(c, o.nw.Roots) {
+			b, _ := json.Marshal(c)
+			reportPrimitiveInside(res, brokenPrimitiveState(c, o.nw.Roots), replayBody{Kind: "state", State: b}, at(o.nw.Roots, d), at(o.want, d))
+		} else if d >= 0 {
 			violateOnce(res, "state-root-differs-from-commitment-of-state", func() lib.Violation { return lib.Violation{Sig: "state-root-differs-from-commitment-of-state",
 				What: fmt.Sprintf("core/state root after block %d is %s, the Starknet commitment of the resulting state is %s", d, at(o.nw.Roots, d), at(o.want, d)),
 				Replay: rep(func(c *StateCase) bool {
@@ -962,7 +1123,10 @@ func checkStateCases(f lib.Flags, res *lib.Result, drv *lib.Driver, cases []*Sta
 		if o.old.Err != "" {
 			violateOnce(res, "deprecatedstate-update-fails-on-valid-history", func() lib.Violation { return lib.Violation{Sig: "deprecatedstate-update-fails-on-valid-history", What: "core/deprecatedstate: " + o.old.Err,
 				Replay: rep(func(c *StateCase) bool { return runOldState(c).Err != "" })} })
-		} else if d := firstDiff(o.old.Roots, o.want); d >= 0 {
+		} else if d := firstDiff(o.old.Roots, o.want); d >= 0 && firstDiff(o.old.Roots, o.alt) >= 0 && primitiveIsCauseState(c, o.old.Roots) {
+			b, _ := json.Marshal(c)
+			reportPrimitiveInside(res, brokenPrimitiveState(c, o.old.Roots), replayBody{Kind: "state", State: b}, at(o.old.Roots, d), at(o.want, d))
+		} else if d >= 0 {
 			if firstDiff(o.old.Roots, o.alt) < 0 {
 				// the only deviation: a system contract whose storage became empty keeps a non-zero leaf
 				violateOnce(res, "deprecatedstate-keeps-leaf-of-emptied-system-contract", func() lib.Violation { return lib.Violation{Sig: "deprecatedstate-keeps-leaf-of-emptied-system-contract",
